@@ -62,8 +62,26 @@ def unlocked_search_mesh_specs(ctx):
     return specs
 
 
+def typed_value_specs(ctx):
+    """Deterministic integer-valued targets that return their value as a NumPy scalar of a non-float real type (counts, discrete losses as
+    np.uint64 / np.uint8 / np.int32 ...): differences of such values wrap around in their own type, so a WORSE polled point would look like a huge
+    improvement - and double the mesh - if the values reached the improvement arithmetic unconverted.  The whole-call model derives every
+    improvement from the logged values (`Fl.sub`), so the mesh after such a poll is compared with what the true values imply."""
+    from .. import gen
+    rng = ctx.sub_rng("c13ydtype")
+    specs = []
+    for dt in (("uint64", "uint8", "int32") if ctx.quick else ("uint64", "uint8", "uint16", "uint32", "int64", "int32", "float32", "uint64")):
+        sp = gen.make_spec(rng, D=rng.choice([1, 2]), mode="det", geom="box", opt_loc="inside", cons=None, target=rng.choice(["plateau", "ties"]))
+        sp["x0_unit"] = [0.9 if c < 0 else -0.9 for c in sp["c_unit"]]        # start far from the optimum
+        sp["ydtype"] = dt
+        sp["options"] = {"n_search": 32, "max_fun_evals": 70, "accelerate_mesh": rng.random() < 0.5}
+        specs.append(sp)
+    return specs
+
+
 def run(ctx):
     rep = Report()
+    runlevel.with_extra(ctx, "c13ydtype", lambda: typed_value_specs(ctx))
     runlevel.with_extra(ctx, "c13unlocked", lambda: unlocked_search_mesh_specs(ctx))
     runlevel.with_extra(ctx, "c13stall", lambda: stalling_noisy_specs(ctx))
     runlevel.with_extra(ctx, "c13dyadic", lambda: dyadic_tol_specs(ctx))
